@@ -162,12 +162,12 @@ WEIGHTS = {"fmt": 10, "seq": 10, "chart_fmt": 8, "table_op": 6, "set_text": 5, "
 
 
 def jobs(tier):
-    n = 60 if tier == "thorough" else 6
+    n = 60 if tier == "thorough" else 25
     decks = corpus_decks()
     js = []
     for i in range(16):
         mine = decks[i::16] if tier == "thorough" else decks[i::16][: 2]
-        js.append({"shard": i, "n_template": n * 4, "decks": mine, "n_deck": n if tier == "thorough" else 3,
+        js.append({"shard": i, "n_template": n * 4, "decks": mine, "n_deck": n if tier == "thorough" else 6,
                    "max_ops": 50 if tier == "thorough" else 25})
     return js
 
